@@ -899,6 +899,7 @@ def build(p):
     return out
   p.native('walsh_hadamard_transform', D, 'wht', wht_input)
   p.native('structured_rotation', D, 'rotation', rot_input)
+  p.native('structured_rotation[', D, 'rotation_zero')
   p.native('jit', D, 'wht', lambda m: dict(a=3, b=1, seed=0))
   v_jit(p)
   v_wht(p)
